@@ -443,13 +443,13 @@ class HeapMixin:
 
     def dict_lookup(self, o, key, node):
         sym = self.key_is_symbolic(key)
-        if not sym:
+        if not sym and not any(isinstance(k, ZKey) for k in o.items):
             k = self.hashable(key)
             if k in o.items:
                 return o.items[k]
             self.raise_builtin('KeyError', key, node=node)
         keys = list(o.items.keys())
-        conds = [self.equals(key, k) for k in keys]
+        conds = [self.equals(key, k.e if isinstance(k, ZKey) else k) for k in keys]
         none_of = znot(zor(*conds))
         i = self.choose(conds + [none_of], 'dictkey@%s' % getattr(node, 'lineno', '?'))
         if i == len(keys):
@@ -499,7 +499,16 @@ class HeapMixin:
                 return
             if isinstance(o, DictObj):
                 if self.key_is_symbolic(idx):
-                    raise Unsupported('symbolic key stored into concrete dict')
+                    kv = self.unopt(idx, node)
+                    if isinstance(kv, EnumV):
+                        kv = kv.val
+                    if not isinstance(kv, z3.ArithRef):
+                        raise Unsupported('symbolic non-integer key stored into dict')
+                    # overwrite an entry that is certainly the same key, else new entry
+                    # (sound when keys of one dict are pairwise distinct or syntactically equal,
+                    #  which dict_lookup re-checks by forking on key equality)
+                    o.items[ZKey(z3.simplify(kv))] = v
+                    return
                 o.items[self.hashable(idx)] = v
                 return
             if isinstance(o, MapObj):
@@ -510,6 +519,23 @@ class HeapMixin:
             if isinstance(o, Obj):
                 return self.obj_setitem(base, o, idx, v, node)
         raise Unsupported('item assignment on %r' % (base,))
+
+    def setslice(self, base, lo, hi, v, node=None):
+        if isinstance(base, Ref):
+            o = self.heap.get(base)
+            if isinstance(o, Obj) and o.cls == 'builtins.bytearray':
+                if isinstance(v, Ref):
+                    v = self.bi_bytes([v], {}, node)
+                if str_kind(v) != 'bytes':
+                    raise Unsupported('bytearray slice assignment of %r' % (v,))
+                data = o.fields['data']
+                head = self.str_slice(data, None, lo if lo is not None else 0, node)
+                tail = self.str_slice(data, hi, None, node) if hi is not None else (b'' if True else None)
+                if hi is None:
+                    tail = b''
+                o.fields['data'] = self.s_concat(self.s_concat(head, v), tail)
+                return
+        raise Unsupported('slice assignment on %r' % (base,))
 
     def delitem(self, base, idx, node=None):
         if isinstance(base, Ref):
